@@ -245,7 +245,12 @@ def gen_om_off(rng, L):
     c = rng.random()
     if c < 0.6: return ['nointra', 0]
     if c < 0.8: return ['gauss', rng.choice([4, 10, 30]), float('%.4g' % rng.uniform(0.6, 1.4))]
-    vals = [float('%.6g' % (0.5 * math.exp(-0.5 * ((q + 1) / max(L, 1) * 5) ** 2) * rng.uniform(0.9, 1.1))) for q in range(L)]
+    if c < 0.9:
+        vals = [float('%.6g' % (0.5 * math.exp(-0.5 * ((q + 1) / max(L, 1) * 5) ** 2) * rng.uniform(0.9, 1.1))) for q in range(L)]
+    else:
+        # the cross term of two sites at a FIXED distance (a rigid bond): sin(kl)/(2kl), legitimately negative at some wavenumbers
+        l = rng.uniform(0.8, 1.5); w = rng.uniform(8.0, 20.0)
+        vals = [float('%.6g' % (0.5 * math.sin(w * (q + 1) / max(L, 1) * l) / (w * (q + 1) / max(L, 1) * l))) for q in range(L)]
     return ['arr', 0] + vals
 
 def gen_system(rng, maxn=3, maxL=32, soft_ok=True, distinct=True):
@@ -265,6 +270,8 @@ def gen_system(rng, maxn=3, maxL=32, soft_ok=True, distinct=True):
         pot = gen_pot(rng, sig, soft_ok)
         sd['pairs']['%d%d' % (i, j)] = {'pot': pot, 'clo': gen_clo(rng, pot[0]),
                                         'om': gen_om_diag(rng, L) if i == j else gen_om_off(rng, L)}
+    if n >= 2 and rng.random() < 0.2:
+        t = rng.randrange(n); sd['dens'][t] = float('%.5g' % (sd['dens'][t] * rng.choice([1e-5, 1e-6, 1e-8])))      # one dilute component (a tracer / dilute nanocomposite)
     if rng.random() < 0.3: sd['kT_assign'] = rng.choice([1.0, 0.5, 3.0, sd['kT'] * 2])
     if n >= 2 and rng.random() < 0.4:
         sd['diam_order'] = rng.sample(range(n), n) + ([0] if rng.random() < 0.5 else [])
